@@ -327,8 +327,13 @@ func (c *cmdCase) spec(seed uint64) *simrt.Spec {
 func outputs(res *simrt.Result, outDir string) map[string]string {
 	m := map[string]string{}
 	for _, a := range res.FSLog {
-		if a.Op == "open-w" && a.Err == "" {
+		// a file is written by opening it for writing or by renaming a finished temporary onto it; a
+		// temporary that is gone at the end is not output
+		if (a.Op == "open-w" || a.Op == "rename") && a.Err == "" {
 			p := a.Path
+			if _, there := res.Disk[p]; !there {
+				continue
+			}
 			if strings.HasPrefix(p, "/concurrent/") {
 				continue // written by another caller of the process that generates at the same time
 			}
